@@ -7,6 +7,16 @@ ROOT = os.path.dirname(os.path.dirname(os.path.abspath(__file__)))
 ALL = ["C%02d" % i for i in range(1, 21)]
 
 CLAIMED = {
+    "C09": dict(
+        category="model_checking",
+        text="MC_Link model-checks the chain Encode -> Modulate -> Constrain -> Channel{Ideal|Flip(<=t per block)|Displace} -> Demodulate -> Decode over a "
+             "frame of lcm(n,bits/symbol)/n blocks: for every message frame and every admissible fault placement, delivery implies out = msg (and the frame "
+             "is a whole number of symbols, and the chain terminates). Real ChannelCodeModel links for every (code, decoder) x memoryless modem pairing with "
+             "matching interfaces are run with forward hooks on every stage and harness-placed faults (all single positions, all pairs for t=2, seeded "
+             "triples, displacement < dmin/2); Trace_Link validates every stage boundary and the delivered message.",
+        design_ref="7/C09",
+        note="Memoryless modems only (differential/offset schemes change the frame length); identity constraint; soft links use noise_var = 1.",
+        technique="TLA+ spec Link + TLC: model checking of the chain with independent fault actions, trace validation of per-stage records"),
     "C20": dict(
         category="model_checking",
         text="MC_Purity model-checks the purity law (the answer depends on the member only) for every call history over a pool of four members and shows "
